@@ -17,21 +17,27 @@ CONSTANT TraceFile
 
 V(n, t, s) == [name |-> n, type |-> t, sub |-> s]
 Vals == {V(n, t, s) : n \in {"", "a", "B"}, t \in {"T1", "T2"}, s \in {"", "s", "k=v"}}
-\* Names and subtypes the struct-and-tag representation of a set cannot carry, and some it can although they
-\* need care.  They are symbols here; the harness substitutes the real strings (both ways):
-\*   names     xdotless = U+0131 (upper-cases to "I", which lower-cases to "i"), xdigit = "1a", xunder = "_a" (no exported field name)
-\*   subtypes  xcomma = "a,b" (the tag separator);  xquote = a"b and xback = a\b (fine once the tag is quoted properly)
-BadName(n) == n \in {"xdotless", "xdigit", "xunder"}
+\* Names and subtypes that need care in the struct-and-tag representation of a set.  They are symbols here; the
+\* harness substitutes the real strings (both ways):
+\*   names     xdotless = U+0131 (upper-cases to "I", which lower-cases to "i"), xdigit = "1a", xunder = "_a" (no exported
+\*             field name; names are carried by the tag since the repair of F25), xcomman = "a,b"
+\*   subtypes  xcomma = "a,b";  xquote = a"b and xback = a\b (fine once the tag is quoted properly)
+\* The tag separates its parts by commas: a name or subtype containing one cannot be represented and must be refused.
+BadName(n) == n = "xcomman"
 BadSub(s) == s = "xcomma"
-OddVals == {V(n, t, s) : n \in {"", "a", "xdotless", "xdigit", "xunder"}, t \in {"T1"}, s \in {"", "s", "xcomma", "xquote", "xback"}}
+OddVals == {V(n, t, s) : n \in {"", "a", "xdotless", "xdigit", "xunder", "xcomman"}, t \in {"T1"}, s \in {"", "s", "xcomma", "xquote", "xback"}}
 Lower(n) == IF n = "B" THEN "b" ELSE n
 Lists == UNION {[1..k -> Vals] : k \in 0..3} \cup UNION {[1..k -> OddVals \cup {V("B", "T2", "")}] : k \in 1..2}
-Representable(d) == \A i \in DOMAIN d.vals : ~BadName(d.vals[i].name) /\ ~BadSub(d.vals[i].sub)
+Representable(d) == /\ \A i \in DOMAIN d.vals : ~BadName(d.vals[i].name) /\ ~BadSub(d.vals[i].sub)
+                    /\ NoDupNames(d.vals)
 \* distinct values; no repeated name (type-only values of one type may differ in their subtype)
 WF(q) == \A i, j \in DOMAIN q : i # j =>
             /\ q[i] # q[j]
             /\ (q[i].name # "" /\ q[j].name # "") => Lower(q[i].name) # Lower(q[j].name)
-Descs == {[vals |-> q, kind |-> "list"] : q \in {x \in Lists : WF(x)}}
+\* lists that use a name twice (also in different casing): refused with an error
+DupLists == {<<V("a", "T1", ""), V("a", "T2", "")>>, <<V("a", "T1", ""), V("B", "T2", ""), V("b", "T1", "s")>>, <<V("B", "T1", ""), V("", "T1", ""), V("B", "T1", "s")>>}
+NoDupNames(q) == \A i, j \in DOMAIN q : (i # j /\ q[i].name # "" /\ q[j].name # "") => Lower(q[i].name) # Lower(q[j].name)
+Descs == {[vals |-> q, kind |-> "list"] : q \in {x \in Lists : WF(x)} \cup DupLists}
          \cup {[vals |-> q, kind |-> "lifted"] : q \in {<<V("", "T1", "")>>, <<V("", "T1", ""), V("", "T2", "")>>, <<V("", "T2", ""), V("", "T1", "")>>}}
 
 Rep(v) == V(Lower(v.name), v.type, v.sub)
